@@ -52,7 +52,7 @@ PROPS = {
         assumptions=['retransmission discipline over whole histories is decided by the oracle + correspondence of the resend bookkeeping, not by a theorem']),
     'C03': dict(
         module='Props.C03', level='proof',
-        profiles=dict(quick=[('lifecycle', 15, 1), ('lifecyclebfs', 300, 1), ('parse', 20, 1)], thorough=[('lifecycle', 120, 8), ('lifecyclebfs', 3000, 1), ('life', 150, 4), ('policy', 1000, 1), ('parse', 200, 2)]),
+        profiles=dict(quick=[('lifecycle', 15, 1), ('lifecyclebfs', 300, 1), ('parse', 20, 1), ('spec', 12, 1)], thorough=[('lifecycle', 120, 8), ('lifecyclebfs', 3000, 1), ('life', 150, 4), ('policy', 1000, 1), ('parse', 200, 2), ('spec', 40, 2)]),
         explanation='silent states and wire armour as theorems (Props.C03); Go oracle searches every wire output (raw, base64-decoded, reassembled fragments) for every text sent while encrypted / finished / under required encryption over lifecycle histories under random policy sets',
         assumptions=['secrecy of AES-CTR and of the DH-derived keys is assumed (ideal crypto)', 'noninterference of the other message fields is checked by the oracle, not proved']),
     'C01': dict(
@@ -77,7 +77,7 @@ PROPS = {
         assumptions=['Nat.Prime p and Nat.Prime q are hypotheses of c11_unequal_fail (no primality certificate available offline)', 'the honest proof exponents are non-zero (hypothesis of the success theorems: a 2^-1535 event in which the library, like libotr, rejects an honest message)', 'binding of the hashed secret to fingerprints and SSID relies on collision resistance of SHA-256']),
     'C12': dict(
         module='Props.C12', level='proof',
-        profiles=dict(quick=[('smp', 40, 1)], thorough=[('smp', 300, 8), ('parse', 200, 2)]),
+        profiles=dict(quick=[('smp', 40, 1), ('spec', 12, 1)], thorough=[('smp', 300, 8), ('parse', 200, 2), ('spec', 40, 2)]),
         explanation='success-event guard for every message and state, no-panic theorems after the group checks, state-machine invariant (Props.C12); Go oracle sends SMP messages authenticated by the genuine peer with one field replaced by a boundary value / perturbed / miscounted / truncated, plus user calls out of sequence, and requires no success, no panic, and a successful honest run afterwards',
         assumptions=['soundness of the zero-knowledge proofs against non-degenerate cheating is computational: covered by generated inputs only', 'known finding: OTRv2 accepts degenerate group elements (test-pinned)']),
     'C13': dict(
